@@ -38,6 +38,33 @@ CHECKS = {
    note=SEQ_NOTE),
 }
 
+SCHED_NOTE = ("Trusted: shuttle 0.9.3's execution engine (one task at a time, blocked/runnable bookkeeping), the vendored dashmap 5.5.3 whose only "
+              "changes are lock.rs (shard lock routed to shuttle's BatchSemaphore, same admission rule), a fixed hasher and a settable shard count, the "
+              "sequential specification in linspec.rs. Sequentially consistent exploration; scheduling points = shard-lock acquire/release and the two AtomicU64s (hook).")
+
+CHECKS.update({
+ "C03": dict(engine="sched", cat="model_checking", ref="§4 C03, §2.2",
+   technique="stateless DFS over all thread schedules (preemption-bounded, iterated until no alternative is pruned) of the real store under a controlled scheduler, brute-force linearizability oracle",
+   text="For every program of 2-3 clients x 1-2 of {get,set,cas-set(current),cas-set(stale),delete,delete(cas)} on one key and each initial state (absent, present, present-but-expired) every schedule at lock/atomic granularity is executed on the real MemoryStore through real BinaryHandlers; each execution's call/return history and final content must be explained by a sequential order (linearizability). Quick: 2x1 all schedules, 3x1 bound 2-3; thorough: all families until saturation (every schedule).",
+   note=SCHED_NOTE),
+ "C04": dict(engine="sched", cat="model_checking", ref="§4 C04, §2.2",
+   technique="stateless DFS over all thread schedules of the real store under a controlled scheduler, brute-force linearizability oracle",
+   text="Same engine as C03 with add/replace/append/prepend/incr/decr added (values chosen so lost updates are visible). The unchanged tree violates this property for 41 (state, command pair) combinations because these commands are get-then-set; they are listed as known findings, every other pair/triple must be linearizable.",
+   note=SCHED_NOTE),
+ "C14": dict(engine="seq+sched", cat="model_checking", ref="§4 C14, §2.2, §2.3",
+   technique="explicit-state BFS over histories with every eviction victim enumerated (RNG seam) + stateless DFS over all schedules of concurrent stores, bound checked on the dump",
+   text="Sequential: all histories up to the bound under RandomPolicy with limits {10,60,100,(34,200)} where every victim index is a branch; after every command sum(record sizes) <= L + last written record and the written record is present. Concurrent: 2-3 storing clients, all schedules up to the preemption bound and all victims: at rest sum <= L + sizes of the program's stores; deadlock/step-horizon detection gives termination.",
+   note=SEQ_NOTE + " " + SCHED_NOTE),
+ "C15": dict(engine="seq", cat="model_checking", ref="§4 C15, §2.3",
+   technique="explicit-state BFS over histories on the real code under RandomPolicy, accounting counter (hook) compared with the dump after every command",
+   text="All histories up to the bound of every command kind on 3 keys under a generous limit: (accounted usage - sum of stored record sizes) must not change in any command, and no live item may disappear while the stored records fit under the limit (behavioural form, limit 130). The unchanged tree drifts at 5 call sites; each (unaccounted record, command) is a listed known finding.",
+   note=SEQ_NOTE),
+ "C16": dict(engine="sched", cat="model_checking", ref="§4 C16, §2.2",
+   technique="stateless DFS over all thread schedules of the real store under a controlled scheduler with deadlock (no enabled task) and step-horizon (livelock) detection",
+   text="Programs of 1-3 clients over {get,set,cas-set,delete,add,append,incr,flush,other-key ops, evicting stores} with keys on the same and on different shards (2 shards), policies none and random with a tight limit (eviction sweeps, all victims), initial states absent/present/expired: every schedule up to the bound must run to completion; a blocked system or >20000 steps is a violation.",
+   note=SCHED_NOTE),
+})
+
 PENDING = {}
 
 def main():
@@ -71,8 +98,10 @@ def main():
             "add_only": True,
         },
         "engines": [
-            {"name": "seq", "path": "/verif/mc/src/seq.rs", "serves_properties": [k for k, v in CHECKS.items() if v["engine"] == "seq"],
+            {"name": "seq", "path": "/verif/mc/src/seq.rs", "serves_properties": [k for k, v in CHECKS.items() if "seq" in v["engine"]],
              "kind_free_text": "explicit-state BFS over command histories; each transition executes the real code; reference model in lock-step"},
+            {"name": "sched", "path": "/verif/mc/src/sched.rs", "serves_properties": [k for k, v in CHECKS.items() if "sched" in v["engine"]],
+             "kind_free_text": "stateless preemption-bounded DFS over thread schedules of the real store (shuttle engine + own scheduler + lock-instrumented dashmap)"},
         ],
         "checks": checks,
         "not_applicable": na,
